@@ -74,6 +74,7 @@ type Case struct {
 	NKeys  int         `json:"n"`
 	Local  int         `json:"local"` // the node's own key (index; Outsider = the node is no validator)
 	Early  bool        `json:"early,omitempty"`
+	Dyn    *DynSpec    `json:"dyn,omitempty"` // an epoch elects another validator set (oracle only, see dyn.go)
 	Blocks []BlockSpec `json:"blocks"`
 	Events []Event     `json:"events"`
 }
@@ -93,6 +94,7 @@ type CkDump struct {
 	Label  int        `json:"l"`
 	Status string     `json:"st"`
 	Parent int        `json:"p"`
+	NVal   int        `json:"nval,omitempty"` // elected-validator cases: size of the parent epoch's validator set
 	Links  []LinkDump `json:"links,omitempty"`
 }
 
@@ -211,6 +213,9 @@ func verifySig(pub chainkd.XPub, source, target bc.Hash, sig []byte) bool {
 }
 
 func runOne(w *cl.World, c *Case, base string) (*Result, error) {
+	if c.Dyn != nil {
+		return runDyn(w, c, base)
+	}
 	r := &runner{w: w, c: c, label: map[string]int{}, out: outsiderKey()}
 	r.blocks = []*cl.BlockInfo{w.Genesis}
 	nchild := map[int]int{}
